@@ -524,7 +524,8 @@ class Gen12(storegen.Gen):
             self.around(["append", owner.path, cn, key], None, [owner.path, cn])
             return "link"
         if kind == "extend":
-            owner = self.pick(ents, rng.choice(["group", "group", "tag", "multi_tag", "data_array"]))
+            owners = [e for e in ents if e.kind in ("group", "tag", "multi_tag", "data_array")]
+            owner = rng.choice(owners) if owners else None
             if owner is None:
                 return "extend:none"
             cn = rng.choice([c for c in storegen.CONTAINERS[owner.kind] if (owner.kind, c) in storegen.LINK_CONTS])
@@ -594,8 +595,17 @@ def run_history(ctx, rng, steps, profile, tag, inject_prob, strict=False, replay
     return gen.ops, gen.outs, kinds, impl
 
 
+def _feature_object(op):
+    keys = [op[3]] if op[0] == "append" else (op[3] if op[0] == "extend" else [])
+    return any(isinstance(k, dict) and "o" in k and "features" in k["o"] for k in keys)
+
+
 def compare(ops, impl_outs, model_outs):
-    return storegen.compare(ops, impl_outs, model_outs)
+    """storegen.compare; for a Feature object offered to a link list only refused/accepted is compared: `append` calls
+    `str(item)` (util.is_uuid), and `Feature.__str__` raises RuntimeError when the feature's data link is dangling,
+    before the kind check (TypeError) is reached"""
+    return [d for d in storegen.compare(ops, impl_outs, model_outs)
+            if not (_feature_object(d[1]) and "err" in d[2] and "err" in d[3])]
 
 
 def correspondence(ctx):
@@ -658,6 +668,25 @@ def correspondence(ctx):
 
 # ---------------------------------------------------------------------------------------------------
 # oracle: the property on the implementation alone
+
+
+@contextlib.contextmanager
+def ticking_clock():
+    """every timestamp nixio writes is one second later than the previous one, so a refused call that touches
+    `updated_at` is visible in the snapshot whatever the wall clock does"""
+    import nixio.util as pkg
+    import nixio.util.util as mod
+    state = {"t": 1700000000}
+
+    def now_int():
+        state["t"] += 1
+        return state["t"]
+    old = (pkg.now_int, mod.now_int)
+    pkg.now_int = mod.now_int = now_int
+    try:
+        yield
+    finally:
+        pkg.now_int, mod.now_int = old
 
 
 def _quiet(fn):
@@ -937,6 +966,11 @@ def _check_call(f, c, label, call, retry):
 
 
 def oracle(ctx, broken, hints):
+    with ticking_clock():
+        return _oracle(ctx, broken, hints)
+
+
+def _oracle(ctx, broken, hints):
     failures = []
     evals = 0
     refused = 0
@@ -986,7 +1020,7 @@ def oracle(ctx, broken, hints):
             ops, outs, _, impl = run_history(ctx, random.Random(0), 0, "mixed", "hint%d" % hi, 0, strict=True,
                                              replay_ops=h["prefix"])
             evals += len(ops)
-            failures += _strict_failures(impl, ops, "hint")
+            failures += _strict_failures(impl, ops, "hint", ctx)
     # (c) seeded histories with injected invalid calls, strict snapshot around every refused mutating call
     n = ctx.budget(10, 100) * (4 if broken else 1)
     steps = ctx.budget(35, 60)
@@ -996,7 +1030,7 @@ def oracle(ctx, broken, hints):
                                          strict=True)
         evals += len(ops)
         refused += impl.refused
-        failures += _strict_failures(impl, ops, "history %d" % k)
+        failures += _strict_failures(impl, ops, "history %d" % k, ctx)
         if len(failures) > 12:
             break
     best = {}
@@ -1009,11 +1043,47 @@ def oracle(ctx, broken, hints):
             "accepted_not_refused": accepted, "histories": n}
 
 
-def _strict_failures(impl, ops, where):
+def _still_fails(ctx, muts):
+    """does the last op of `muts` still get refused and change the file when the history is replayed?"""
+    try:
+        ops, outs, _, impl = run_history(ctx, random.Random(0), 0, "mixed", "min", 0, strict=True, replay_ops=muts)
+    except Exception:       # noqa
+        return False
+    return any(op == muts[-1] for op, _, _ in impl.changed)
+
+
+def _minimise(ctx, muts, budget=40):
+    """delta debugging over the mutating calls that precede the refused one"""
+    head, last = list(muts[:-1]), muts[-1]
+    n = 2
+    while len(head) >= 1 and budget > 0:
+        size = max(1, len(head) // n)
+        shrunk = False
+        for i in range(0, len(head), size):
+            cand = head[:i] + head[i + size:]
+            budget -= 1
+            if _still_fails(ctx, cand + [last]):
+                head, n, shrunk = cand, max(n - 1, 2), True
+                break
+            if budget <= 0:
+                break
+        if not shrunk:
+            if size == 1:
+                break
+            n = min(len(head), n * 2)
+    return head + [last]
+
+
+def _strict_failures(impl, ops, where, ctx=None):
     out = []
-    for op, err, diff in impl.changed:
+    for op, err, diff in impl.changed[:3]:
         idx = ops.index(op)
         muts = [o for o in ops[:idx + 1] if o[0] in Impl12.MUTATORS]
+        if ctx is not None and len(muts) > 3:
+            try:
+                muts = _minimise(ctx, muts)
+            except Exception:       # noqa
+                pass
         out.append(Failure("a refused call changed the file",
                            {"kind": "history", "ops": muts if len(muts) < 200 else muts[-200:], "where": where},
                            {"raised": err, "changes": diff}, "file identical before and after the refused call",
@@ -1029,14 +1099,20 @@ def matches_known(entry, failure):
 
 def reproduces(ctx, entry):
     label = entry.get("class")
-    for lab, call, retry in _catalogue():
-        if lab == label:
-            fl, _ = run_case(ctx, lab, call, retry, tag="known")
-            return fl is not None
+    with ticking_clock():
+        for lab, call, retry in _catalogue():
+            if lab == label:
+                fl, _ = run_case(ctx, lab, call, retry, tag="known")
+                return fl is not None
     return True
 
 
 def replay_failure(ctx, fj):
+    with ticking_clock():
+        return _replay_failure(ctx, fj)
+
+
+def _replay_failure(ctx, fj):
     inp = fj.get("input") or {}
     if inp.get("kind") == "catalogue":
         for lab, call, retry in _catalogue():
